@@ -124,6 +124,7 @@ def _values():
         {"I": 0}, {"I": 1}, {"I": -3}, {"I": 7}, {"F": 0.0}, {"F": 2.5}, {"F": 1e-05}, {"F": -1.0}, {"B": True}, {"B": False},
         S("true"), S("False"), S("TRUE"), S("1"), S("0"), S("abc"), S("1.5"), S("1e5"), S(" 7 "), S(""), S("-4"), S("Float"), S("Integer"),
         S("/nonexistent/abs/p"), S("rel/p"), S("$TMP/present.txt"), S("present.txt"), S("A"), S("Fz"), S("Fin"), S("Missing"),
+        S("a\x00b.csv"), S("x" * 300), S("."), S("present.txt/"),
         {"N": 0}, {"L": []}, {"L": [{"I": 1}, S("2")]}, {"L": [{"L": [{"I": 1}]}, {"L": [S("x")]}]}, {"L": [S("A"), S("Fz")]},
         {"L": [{"O": {"kind": "argument", "value": {"I": 4}}}, {"I": 5}]}, {"L": [{"F": 1.5}, {"B": True}]},
         {"D": []}, {"D": [[S("a"), {"I": 1}]]}, {"D": [[{"I": 1}, {"I": 2}], [S("k"), S("v")]]},
